@@ -367,10 +367,21 @@ func opPlugins(op string, t *pgen.Type) []string {
 func (d dedupe) filter(ops []string, t *pgen.Type) []string {
 	var out []string
 	own := map[string]bool{}
+	// a type whose Equal / Compare METHOD is implemented by a derived function (the idiom) already
+	// registers that function for [*T *T]: an explicit call over *T under another name would be a duplicate
+	idiom := map[string]bool{}
+	if t.K == pgen.KPtr && t.Elem.K == pgen.KNamed {
+		if t.Elem.EqualMethod == "derived" {
+			idiom["equal2|"+assignKey(t)] = true
+		}
+		if t.Elem.CompareMethod == "derived" {
+			idiom["compare2|"+assignKey(t)] = true
+		}
+	}
 	for _, op := range ops {
 		ok := true
 		for _, k := range opPlugins(op, t) {
-			if d[k] && !own[k] {
+			if d[k] && !own[k] || idiom[k] {
 				ok = false
 			}
 		}
